@@ -1458,7 +1458,7 @@ class X:
             cur = self.lookup(n, st, chain)
             if cur is not None and cur.k == "ref":
                 o = st.heap[cur.t]
-                if type(o).__name__ in ("HSet", "HRel"):
+                if type(o).__name__ in ("HSet", "HRel", "HKinds"):
                     from . import absmodels
                     absmodels.havoc_abstract(self, st, cur)
                     continue
